@@ -272,6 +272,139 @@ func (c *Ctx) ruleR06d(rule string) {
 		}
 	}
 	if !found {
-		c.R.Exempt("line table", "the line table is not built by a byte loop over the content: not decided")
+		found = c.lineTableIndexByte(rule, fn, lf)
 	}
+	if !found {
+		c.R.Exempt("line table", "the line table is built neither by a byte loop over the content nor by a bytes.IndexByte scan: not decided")
+	}
+}
+
+// lineTableIndexByte decides the other common shape: a cursor off (from 0) advanced by i+1 where
+// i = bytes.IndexByte(data[off:], '\n'), appending off+i+1. Every test that governs the append must follow from
+// "a line feed was found" (i >= 0, hence off+i+1 <= len(data)); anything stronger skips line feeds.
+func (c *Ctx) lineTableIndexByte(rule string, fn *ssa.Function, lf *lin.Fn) bool {
+	m := c.model()
+	name := c.name(fn)
+	for _, b := range fn.Blocks {
+		for _, in := range b.Instrs {
+			ib, ok := in.(*ssa.Call)
+			if !ok || extCallName(ib) != "bytes.IndexByte" || len(ib.Call.Args) != 2 {
+				continue
+			}
+			sl, ok := ib.Call.Args[0].(*ssa.Slice)
+			if !ok || sl.Low == nil || sl.High != nil {
+				continue
+			}
+			if _, f, isLoad := fieldLoad(sl.X); !isLoad || f != m.Data {
+				continue
+			}
+			off, isPhi := sl.Low.(*ssa.Phi)
+			head := innermostLoopHeader(b)
+			if !isPhi || head == nil || off.Block() != head {
+				continue
+			}
+			site := name + " IndexByte scan @" + c.P.InstrPos(ib)
+			if k, isC := ssax.ConstInt(ib.Call.Args[1]); !isC || k != 0x0A {
+				c.R.Violation(rule, name+" line separator", name, c.P.InstrPos(ib), "the scan looks for a byte other than the line feed 0x0A")
+				return true
+			}
+			// the cursor starts at 0 and continues at off+i+1
+			next := lf.Norm(off).Add(lf.Norm(ib)).Add(lin.Const(1))
+			okCursor := true
+			for k, e := range off.Edges {
+				if head.Dominates(head.Preds[k]) {
+					if d := lf.Norm(e).Sub(next); !d.IsConst() || d.K != 0 {
+						okCursor = false
+					}
+				} else if z, isC := ssax.ConstInt(e); !isC || z != 0 {
+					okCursor = false
+				}
+			}
+			if !okCursor {
+				c.R.Violation(rule, name+" scan cursor", name, c.P.InstrPos(off), "the scan does not start at 0 and continue right after each line feed found (off + i + 1): line feeds are skipped or found twice")
+				return true
+			}
+			// the append of off+i+1 into the line table
+			var app *ssa.Call
+			var appBlock *ssa.BasicBlock
+			for _, hb := range fn.Blocks {
+				if !head.Dominates(hb) {
+					continue
+				}
+				for _, i2 := range hb.Instrs {
+					cl, ok := i2.(*ssa.Call)
+					if !ok {
+						continue
+					}
+					if bi, isB := cl.Call.Value.(*ssa.Builtin); isB && bi.Name() == "append" && len(cl.Call.Args) == 2 {
+						if _, f, isLoad := fieldLoad(cl.Call.Args[0]); isLoad && f == m.Lines {
+							app, appBlock = cl, hb
+						}
+					}
+				}
+			}
+			if app == nil {
+				return false
+			}
+			var appended ssa.Value
+			if s2, ok := app.Call.Args[1].(*ssa.Slice); ok {
+				if al, ok := s2.X.(*ssa.Alloc); ok && al.Referrers() != nil {
+					for _, r := range *al.Referrers() {
+						if ia, ok := r.(*ssa.IndexAddr); ok && ia.Referrers() != nil {
+							for _, rr := range *ia.Referrers() {
+								if st, ok := rr.(*ssa.Store); ok {
+									appended = st.Val
+								}
+							}
+						}
+					}
+				}
+			}
+			if appended == nil {
+				return false
+			}
+			if d := lf.Norm(appended).Sub(next); !d.IsConst() || d.K != 0 {
+				c.R.Violation(rule, name+" line start", name, c.P.InstrPos(app), "the value appended to the line table is not (position of the line feed) + 1")
+				return true
+			}
+			// the append runs on every iteration that goes on
+			for k := range head.Preds {
+				if head.Dominates(head.Preds[k]) && !appBlock.Dominates(head.Preds[k]) {
+					c.R.Violation(rule, name+" conditional line start", name, c.P.InstrPos(app), "an iteration can go on without recording the line start it found")
+					return true
+				}
+			}
+			// premises: a line feed was found
+			dataLen := lf.LenOf(sl.X)
+			prem := []lin.Cons{
+				lin.Ge(lf.Norm(ib), lin.Const(0), "a line feed was found"),
+				lin.Ge(lf.Norm(off), lin.Const(0), "the cursor starts at 0 and only grows"),
+				lin.Ge(dataLen, lf.Norm(off).Add(lf.Norm(ib)).Add(lin.Const(1)), "the index found lies inside the remaining content"),
+			}
+			if base, _, isLoad := fieldLoad(sl.X); isLoad {
+				if p, ok := base.(*ssa.Parameter); ok {
+					prem = append(prem, lin.Eq(lin.Atom(p.Name()+"."+m.Len), dataLen, "File.len = len(File.data)")...)
+				}
+			}
+			for _, cd := range ssax.DominatingConds(appBlock) {
+				if cd.At == nil || !head.Dominates(cd.At) {
+					continue
+				}
+				cons := lf.CondCons(cd.Val, cd.Truth)
+				if cons == nil {
+					c.R.Violation(rule, name+" conditional line start", name, c.P.InstrPos(app), "whether a line start is recorded depends on "+cd.Val.String()+", which is not a statement about the scan")
+					return true
+				}
+				for _, g := range cons {
+					if !lin.Prove(prem, g) {
+						c.R.Violation(rule, name+" conditional line start", name, c.P.InstrPos(app), "a line start is recorded only when "+g.E.String()+" >= 0 holds as well, which does not follow from 'a line feed was found': some line feeds (an empty line, a trailing line feed) do not start a line, so positions after them render with the wrong line and column")
+						return true
+					}
+				}
+			}
+			c.R.Hold(rule, site, "off+i+1 appended for every line feed found; nothing else governs it")
+			return true
+		}
+	}
+	return false
 }
